@@ -882,6 +882,8 @@ func (r *scenRun) inject(inj *Inject, expected []*node) []*node {
 			}
 			r.linksDown(keys...)
 			if !r.call("stop", Ev{N: "top", X: "CollectorPool"}, true, r.stopTop) {
+				// the scenario is over (open call); one more judged call shows whether the pool's lock is still usable
+				r.call("count", Ev{N: "top", X: "CollectorPool"}, true, func() { r.topPool.Count() })
 				kickAccept(r.topAddr)
 			}
 		} else {
@@ -895,6 +897,8 @@ func (r *scenRun) inject(inj *Inject, expected []*node) []*node {
 			}
 			r.linksDown(keys...)
 			if !r.call("stop", Ev{N: victim.name, X: "CollectorPool"}, true, victim.stopPool) {
+				vp := victim.pool
+				r.call("count", Ev{N: victim.name, X: "CollectorPool"}, true, func() { vp.Count() })
 				kickAccept(victim.poolAddr)
 			}
 			victim.stopPool = nil
@@ -942,9 +946,10 @@ func (t *tap) waitSubN(link string, n int, d time.Duration) bool {
 
 // ---------------------------------------------------------------- whole scenario
 
-func runScenario(sc *Scen, seed int64, sl *slots, watchdog time.Duration) *Rec {
+func runScenario(sc *Scen, seed int64, sl *slots, watchdog time.Duration, onStart func()) *Rec {
 	sl.acquire()
 	defer sl.release()
+	onStart()
 	r := newScenRun(sc, seed, sl, watchdog)
 	rec := &Rec{Idx: sc.Idx, Scen: sc, Watchdog: watchdog.Milliseconds()}
 	t0 := time.Now()
